@@ -8,6 +8,11 @@
 (* handed to xnp.while_loop_winfo (the original loop runs):                *)
 (*   [alg, n, m (requested max_iters), mb (cap the buffers were sized by), *)
 (*    b (batch),                                                           *)
+(*    kd (0, or the exact Krylov dimension - maximum over the batch - of   *)
+(*        an execution of the exact-breakdown family: every residual of    *)
+(*        such a run is an exact floating-point number, zero exactly at    *)
+(*        step kd, so the numeric test observed in the real loop must be   *)
+(*        the exact test "residual # 0" of MC_Krylov, whatever tol >= 0),  *)
 (*    evs |-> << [c |-> counter in the loop state,                         *)
 (*                t |-> "T" | "F" | "E"   harness-recomputed numeric test  *)
 (*                                        (E = within the band, either),   *)
@@ -38,10 +43,16 @@ Init == /\ t \in {k \in 1..NTraces: (k - 1) % Block = 0}
 Allowed(tag) == IF tag = "T" THEN {TRUE} ELSE IF tag = "F" THEN {FALSE} ELSE BOOLEAN
 Fail(msg) == /\ ok' = FALSE /\ why' = msg /\ UNCHANGED st
 
+\* the exact numeric test of MC_Krylov at counter value c (the first evaluation is unconditional; a tag "E" is a
+\* non-finite residual, left to the skeleton)
+ExactTag(c) ==
+    IF Tr.alg = "lanczos" THEN (IF c - 1 < Tr.kd THEN "T" ELSE "F") ELSE (IF c < Tr.kd THEN "T" ELSE "F")
+
 Consume(e) ==
     IF ~ok THEN UNCHANGED <<st, ok, why>>
     ELSE IF st.done THEN Fail("event after the skeleton stopped")
     ELSE IF e.c # st.ctr THEN Fail("counter")
+    ELSE IF Tr.kd > 0 /\ e.c > CtrInit(Tr.alg) /\ e.t \notin {ExactTag(e.c), "E"} THEN Fail("exact test")
     ELSE IF ~(\E lg \in Allowed(e.t): Cont(Tr.alg, st.ctr, Cap(Tr.m, Tr.n), lg) = e.r)
     THEN Fail("condition")
     ELSE /\ st' = CtlAdvance(st, e.r) /\ UNCHANGED <<ok, why>>
